@@ -410,6 +410,14 @@ func runC01(tier string, seed uint64) {
 				s.Head(b, sk, "")
 				round(sk, sb, nil, 0)
 			}
+			// header values are bytes: HTTP allows any byte above 0x7f in one (Latin-1 text from older clients),
+			// and what was sent is what comes back
+			{
+				obs := []KV{{"X-Amz-Meta-Name", "caf\xe9"}, {"Content-Disposition", "attachment; filename=\"na\xefve \xff.txt\""}, {"X-Amz-Meta-Utf8", "caf\xc3\xa9"}}
+				round("obs-text", rng.Bytes(40), obs, 0)
+				round("obs-text", rng.Bytes(41), obs, 3)
+				round("obs-text", rng.Bytes(42), obs, 2)
+			}
 			s.apiPutReusedMap(b)
 			s.recycledBucketPut(rng.Bytes(3000))
 			// uploads through the Go API from a buffer that is reused afterwards
